@@ -3,6 +3,7 @@ package addr
 import (
 	"bytes"
 	"encoding/hex"
+	"errors"
 	"fmt"
 	"math/big"
 	"math/rand"
@@ -64,12 +65,26 @@ func (b *builder) groupsFor(a bechAbs) []byte {
 			conv, _ := bech32.ConvertBits([]byte{0x4e, 0x73}, 8, 5, true)
 			copy(g, conv)
 		}
+		// the left-over bits of the 5 -> 8 regrouping are the last 5*ng mod 8 bits of
+		// the symbol stream (they reach into the symbol before the last when > 5)
 		left := (5 * a.Ng) % 8
-		if left >= 1 && left <= 4 {
-			mask := byte(1<<uint(left)) - 1
-			g[a.Ng-1] &^= mask
+		if left >= 1 {
+			zero := func() {
+				for k := 0; k < left; k++ {
+					bit := 5*a.Ng - 1 - k
+					g[bit/5] &^= 1 << uint(4-bit%5)
+				}
+			}
+			zero()
 			if !a.PadZero {
-				g[a.Ng-1] |= byte(1 + b.rng.Intn(int(mask)))
+				bit := 5*a.Ng - 1 - b.rng.Intn(left)
+				g[bit/5] |= 1 << uint(4-bit%5)
+				for k := 0; k < left; k++ {
+					if b.rng.Intn(2) == 0 {
+						bit := 5*a.Ng - 1 - k
+						g[bit/5] |= 1 << uint(4-bit%5)
+					}
+				}
 			}
 		}
 		if a.Ng == 4 && !a.Anchor {
@@ -84,6 +99,8 @@ func (b *builder) groupsFor(a bechAbs) []byte {
 		return g
 	}
 }
+
+var errNoSuchString = errors.New("no string has these attributes")
 
 func otherChar(r *rand.Rand, alphabet string, not byte) byte {
 	for {
@@ -118,6 +135,9 @@ func (b *builder) bechString(a bechAbs, hrp string) (string, error) {
 		bad := []byte{0x7f, 0x80, 0x20, 0x09, 0xff}[b.rng.Intn(5)]
 		return s[:pos] + string([]byte{bad}) + s[pos+1:], nil
 	case "seplate":
+		if len(hrp) < 2 {
+			return "", errNoSuchString // 8 characters already leave 6 after the separator
+		}
 		s := hrp + "1"
 		for i := 0; i < 5; i++ {
 			s += string(b32charset[b.rng.Intn(32)])
@@ -202,6 +222,9 @@ func (b *builder) runBech(c *vrun.Ctx, rc rawCase) error {
 		want := cs.S
 		want.Hrp = hrp
 		s, err := b.bechString(want, hrp)
+		if err == errNoSuchString {
+			continue
+		}
 		if err != nil {
 			return fmt.Errorf("building %+v: %w", want, err)
 		}
